@@ -32,7 +32,9 @@ CONSTANTS Threads,    \* set of thread identifiers
           Avail,      \* [Piece -> 0..1] availability passed to Expire
           Dev,        \* enabled as-shipped deviations
           Ops,        \* set of operation records threads may perform
-          InitConds   \* allowed initial condition of a piece
+          InitConds,  \* allowed initial condition of a piece
+          InitNold,   \* allowed initial numbers of pieces idle for >= 2 h
+          InitRanks   \* allowed initial access orders (sequences of pieces)
 
 Piece     == DOMAIN NCh
 NP        == Cardinality(Piece)
@@ -73,14 +75,14 @@ CondCont(i, cnd) ==
        [] cnd = "complete" -> "good"]
 
 Init ==
-  \E cnd \in [Piece -> InitConds] :
+  \E cnd \in [Piece -> InitConds], no \in InitNold, rk \in InitRanks :
     /\ pstate  = [i \in Piece |-> CondState(cnd[i])]
     /\ hasbuf  = [i \in Piece |-> CondBuf(cnd[i])]
     /\ cont    = [i \in Piece |-> CondCont(i, cnd[i])]
     /\ deleted = FALSE
     /\ count   = Cardinality({i \in Piece : CondBuf(cnd[i])})
-    /\ rank    = [k \in 1..NP |-> k - 1]
-    /\ nold    = 0
+    /\ rank    = rk
+    /\ nold    = no
     /\ pc      = [t \in Threads |-> "idle"]
     /\ op      = [t \in Threads |-> NoOp]
     /\ loc     = [t \in Threads |-> NoLoc]
